@@ -93,14 +93,14 @@ try:
                           enable_unsupported_ecdsa=bool(mask & 16))
                 C.judge("honest-flags", policy(n, req, fams, **fl), xml=xml, desc={"flags": fl})
 
-            def corrupt(name, mutate, pol_over=None, flagsets=((),)):
+            def corrupt(name, mutate, pol_over=None, flagsets=((),), built=None):
                 for fs in flagsets:
                     r2 = copy.deepcopy({**req, "bundles": [dict(b, keys=[dict(k) for k in b["keys"]]) for b in req["bundles"]]})
                     r2["zsk"] = dict(req["zsk"], algs=list(req["zsk"]["algs"]))
                     mutate(r2)
                     over = dict(pol_over or {})
                     over.update(dict(fs))
-                    C.judge(name, policy(n, req, fams, **over), xml=ksrxml.render_ksr(r2), desc={"flags_off": [k for k, _ in fs]})
+                    C.judge(name, policy(n, req, fams, **over), xml=ksrxml.render_ksr(r2), desc={"flags_off": [k for k, _ in fs], **({"configured_list": pol_over.get("acceptable_domains")} if built else {})}, built=built)
 
             bi = R.randrange(n)
             OFF_K = (("keys_match_zsk_policy", False),)
@@ -112,8 +112,9 @@ try:
             # membership in the list, not resemblance: parts, parents and joins of the listed names are other domains
             for lst, dom in [(["example.org."], "org."), (["example.org."], "."), (["example.org."], "example.org"), (["example.org."], "ample.org."), (["example.", "test."], "."),
                              (["example.", "test."], "est."), (["example.", "test."], "example., test."), (["example.", "test."], "test."), (["example.org."], "example.org."),
-                             (["example.org.", "."], "."), (["a", "b"], "ab"), (["a", "b"], "a, b"), (["."], "..")]:
-                corrupt("domain-list-membership", lambda r, dom=dom: r.update(domain=dom), pol_over={"acceptable_domains": lst})
+                             (["example.org.", "."], "."), (["a", "b"], "ab"), (["a", "b"], "a, b"), (["."], ".."),
+                             ([".", "Example."], "Example."), ([".", "Example."], "example."), (["EXAMPLE.ORG."], "example.org."), (["example.org."], "EXAMPLE.ORG."), (["Example."], "Example.")]:
+                corrupt("domain-list-membership", lambda r, dom=dom: r.update(domain=dom), pol_over={"acceptable_domains": lst}, built="accept" if dom in lst else "reject")
             if n >= 2:
                 # identifier reuse: another key under the identifier of an earlier key, in a later bundle
                 def reuse(r):
